@@ -38,7 +38,7 @@ RULE = ('each run = generated tree + Manifest layout (nested, compressed sub-Man
         'runs the same update with signing off; non-trivial = signing was expected or a signer fault was injected; '
         'distinct = distinct outcome digest')
 PLAN = {'quick': {'n': 2000, 'budget_s': 90, 'block': 6, 'det': 2},
-        'thorough': {'n': 12000, 'budget_s': 1500, 'block': 40, 'det': 3}}
+        'thorough': {'n': 80000, 'budget_s': 2400, 'block': 40, 'det': 3}}
 ASSUMPTIONS = ['gpg --decrypt strips trailing blanks per line and ends the text with a newline; both sides are normalised that way',
                'signature bytes, times and fingerprints never enter the event log']
 COMPONENTS_REAL = ['gpg 2.2.40 as signer (through gemato.openpgp.GNUPG -> sim/gpgproxy) and as independent re-verifier']
